@@ -74,7 +74,8 @@ def run(tier, seed, replay=None):
     run = Run("C16", tier, seed, RULE)
     drv = Driver()
     exp = {}
-    cases = [replay["case"]] if replay else \
+    from harness.common import corpus_cases
+    cases = [replay["case"]] if replay else corpus_cases("C16") + \
         [rc.make_case(run.rng, tier, damage=(i % 5 != 0)) for i in range(200 if tier == "quick" else 1500)]
     for case in cases:
         res = run_case(run, drv, case, exp)
